@@ -2,34 +2,125 @@
   Avt.Spec.All — dispatch from a property id to its oracle.
 -/
 import Avt.Spec.Base
+import Avt.Spec.C01
+import Avt.Spec.C02
+import Avt.Spec.C03
+import Avt.Spec.C04
+import Avt.Spec.C05
+import Avt.Spec.C06
+import Avt.Spec.C07
+import Avt.Spec.C08
+import Avt.Spec.C09
+import Avt.Spec.C10
+import Avt.Spec.C11
+import Avt.Spec.C12
+import Avt.Spec.C13
+import Avt.Spec.C14
+import Avt.Spec.C15
+import Avt.Spec.C16
+import Avt.Spec.C17
+import Avt.Spec.C18
+import Avt.Spec.C19
+import Avt.Spec.C20
 
 namespace Avt.Spec
 open Avt
 
-def c02Step (ev : StepEv) : List Verdict :=
-  [ check "inv-after-call" true (Inv ev.next),
-    check "geometry-through-api" true (geomOK ev.next),
-    check "size-is-last-requested" (ev.kind == .resize)
-      (ev.kind != .resize || (ev.next.terminal.cols == ev.cols && ev.next.terminal.rows == ev.rows)),
-    check "changed-lines-increasing-and-in-range" ev.ch.isSome
-      (match ev.ch with | some ch => changesOK ev.next.terminal.rows ch | none => true) ]
-
 def checkStep (prop : String) (ev : StepEv) : List Verdict :=
   match prop with
-  | "C01" => c02Step ev
-  | "C02" => c02Step ev
+  | "C01" => C01.checkStep ev
+  | "C02" => C02.checkStep ev
+  | "C03" => C03.checkStep ev
+  | "C04" => C04.checkStep ev
+  | "C05" => C05.checkStep ev
+  | "C06" => C06.checkStep ev
+  | "C07" => C07.checkStep ev
+  | "C08" => C08.checkStep ev
+  | "C09" => C09.checkStep ev
+  | "C10" => C10.checkStep ev
+  | "C11" => C11.checkStep ev
+  | "C12" => C12.checkStep ev
+  | "C13" => C13.checkStep ev
+  | "C14" => C14.checkStep ev
+  | "C15" => C15.checkStep ev
+  | "C16" => C16.checkStep ev
+  | "C17" => C17.checkStep ev
+  | "C18" => C18.checkStep ev
+  | "C19" => C19.checkStep ev
+  | "C20" => C20.checkStep ev
   | _ => []
 
-def checkNew (prop : String) (cols rows : Nat) (_lim : Option Nat) (st : Vt) : List Verdict :=
+def checkNew (prop : String) (cols rows : Nat) (lim : Option Nat) (st : Vt) : List Verdict :=
   match prop with
-  | "C01" | "C02" =>
-    [ check "inv-of-new" true (Inv st), check "geometry-of-new" true (geomOK st),
-      check "size-of-new" true (st.terminal.cols == cols && st.terminal.rows == rows) ]
+  | "C01" => C01.checkNew cols rows lim st
+  | "C02" => C02.checkNew cols rows lim st
+  | "C03" => C03.checkNew cols rows lim st
+  | "C04" => C04.checkNew cols rows lim st
+  | "C05" => C05.checkNew cols rows lim st
+  | "C06" => C06.checkNew cols rows lim st
+  | "C07" => C07.checkNew cols rows lim st
+  | "C08" => C08.checkNew cols rows lim st
+  | "C09" => C09.checkNew cols rows lim st
+  | "C10" => C10.checkNew cols rows lim st
+  | "C11" => C11.checkNew cols rows lim st
+  | "C12" => C12.checkNew cols rows lim st
+  | "C13" => C13.checkNew cols rows lim st
+  | "C14" => C14.checkNew cols rows lim st
+  | "C15" => C15.checkNew cols rows lim st
+  | "C16" => C16.checkNew cols rows lim st
+  | "C17" => C17.checkNew cols rows lim st
+  | "C18" => C18.checkNew cols rows lim st
+  | "C19" => C19.checkNew cols rows lim st
+  | "C20" => C20.checkNew cols rows lim st
   | _ => []
 
-def checkParserStep (_prop : String) (_prev : Parser) (_c : Nat) (_next : Parser) (_fn : String) : List Verdict := []
+def checkParserStep (prop : String) (prev : Parser) (c : Nat) (next : Parser) (fn : String) : List Verdict :=
+  match prop with
+  | "C01" => C01.checkParserStep prev c next fn
+  | "C02" => C02.checkParserStep prev c next fn
+  | "C03" => C03.checkParserStep prev c next fn
+  | "C04" => C04.checkParserStep prev c next fn
+  | "C05" => C05.checkParserStep prev c next fn
+  | "C06" => C06.checkParserStep prev c next fn
+  | "C07" => C07.checkParserStep prev c next fn
+  | "C08" => C08.checkParserStep prev c next fn
+  | "C09" => C09.checkParserStep prev c next fn
+  | "C10" => C10.checkParserStep prev c next fn
+  | "C11" => C11.checkParserStep prev c next fn
+  | "C12" => C12.checkParserStep prev c next fn
+  | "C13" => C13.checkParserStep prev c next fn
+  | "C14" => C14.checkParserStep prev c next fn
+  | "C15" => C15.checkParserStep prev c next fn
+  | "C16" => C16.checkParserStep prev c next fn
+  | "C17" => C17.checkParserStep prev c next fn
+  | "C18" => C18.checkParserStep prev c next fn
+  | "C19" => C19.checkParserStep prev c next fn
+  | "C20" => C20.checkParserStep prev c next fn
+  | _ => []
 
-def checkDirective (_prop : String) (_name : String) (_args : List String) (_inst : String → Option Inst)
-    (_tcOut : Nat → List (List Nat)) : List Verdict × List (Nat × Inst) := ([], [])
+def checkDirective (prop : String) (name : String) (args : List String) (inst : String → Option Inst)
+    (tcOut : Nat → List (List Nat)) : List Verdict × List (Nat × Inst) :=
+  match prop with
+  | "C01" => C01.checkDirective name args inst tcOut
+  | "C02" => C02.checkDirective name args inst tcOut
+  | "C03" => C03.checkDirective name args inst tcOut
+  | "C04" => C04.checkDirective name args inst tcOut
+  | "C05" => C05.checkDirective name args inst tcOut
+  | "C06" => C06.checkDirective name args inst tcOut
+  | "C07" => C07.checkDirective name args inst tcOut
+  | "C08" => C08.checkDirective name args inst tcOut
+  | "C09" => C09.checkDirective name args inst tcOut
+  | "C10" => C10.checkDirective name args inst tcOut
+  | "C11" => C11.checkDirective name args inst tcOut
+  | "C12" => C12.checkDirective name args inst tcOut
+  | "C13" => C13.checkDirective name args inst tcOut
+  | "C14" => C14.checkDirective name args inst tcOut
+  | "C15" => C15.checkDirective name args inst tcOut
+  | "C16" => C16.checkDirective name args inst tcOut
+  | "C17" => C17.checkDirective name args inst tcOut
+  | "C18" => C18.checkDirective name args inst tcOut
+  | "C19" => C19.checkDirective name args inst tcOut
+  | "C20" => C20.checkDirective name args inst tcOut
+  | _ => ([], [])
 
 end Avt.Spec
